@@ -272,7 +272,8 @@ prop('C14',
            'following forever; the dispatch loop never hands a frame whose meta.handler_id is its own id to process_frame.',
      technique=TECH,
      units=['verus:handler_ops'],
-     obligations=['handler.options.*', 'handler.serve.*', 'handler_ops.Handler::configure_read_options.body', 'handler_ops.serve_loop.body'],
+     obligations=['handler.options.*', 'handler.serve.*', 'handler.stamp.*', 'handler_ops.Handler::configure_read_options.body',
+                  'handler_ops.serve_loop.body', 'handler_ops.stamp_loop.body'],
      trusted=['extraction', 'sequential', 'scru128'],
      extra_assumptions=['serde_json::Value accessors (get / as_str / as_object_mut) behave as a map / string model; Display of an id is injective'],
      explanation='configure_read_options whole function; the serve loop with format!() results opaque and json! payloads elided.',
